@@ -209,11 +209,22 @@ package v1
 //@   ghostret POL (View S_cert_PolicyInfo) = seq(policyIds)
 //@   ensures @C06,C07 bound(POL) ==> c.Raw == "" && c.Content != nil && err == nil ==> typeis(b, "gopki/generator/config.ConstantBuilder") && oidv(unboxed(b, "gopki/generator/config.ConstantBuilder").Extension.Id) == specExtOid(6) && unboxed(b, "gopki/generator/config.ConstantBuilder").Extension.Critical == c.Critical && bytes(unboxed(b, "gopki/generator/config.ConstantBuilder").Extension.Value) == der(deep(policyIds))
 //@   ensures @C07 bound(POL) ==> c.Raw == "" && c.Content != nil && err == nil ==> vlen(POL) == len(c.Content) && (forall k in [0, len(c.Content)) :: isOidStr(CT[k].Oid) && oidv(policyIds[k].ObjectIdentifier) == parseOid(CT[k].Oid) && len(policyIds[k].Qualifiers) == len(CT[k].Qualifiers))
+//@   let QS = CT[k].Qualifiers[j]
+//@   let QD = policyIds[k].Qualifiers[j]
+//@   let QSI = CT[i].Qualifiers[j]
+//@   let QDI = policyIds[i].Qualifiers[j]
+//@   let QOK = (len(QS.Cps) > 0 ==> oidv(QD.QualifierId) == oid("1.3.6.1.5.5.7.2.1") && QD.Cps == QS.Cps && QD.UserNotice.ExplicitText == "" && QD.UserNotice.NoticeRef.Organization == "" && len(QD.UserNotice.NoticeRef.NoticeNumbers) == 0) && (len(QS.Cps) == 0 ==> QS.UserNotice != nil && oidv(QD.QualifierId) == oid("1.3.6.1.5.5.7.2.2") && QD.Cps == "" && QD.UserNotice.ExplicitText == QS.UserNotice.Text && QD.UserNotice.NoticeRef.Organization == QS.UserNotice.Organization && QD.UserNotice.NoticeRef.NoticeNumbers == QS.UserNotice.Numbers)
+//@   let QOKI = (len(QSI.Cps) > 0 ==> oidv(QDI.QualifierId) == oid("1.3.6.1.5.5.7.2.1") && QDI.Cps == QSI.Cps && QDI.UserNotice.ExplicitText == "" && QDI.UserNotice.NoticeRef.Organization == "" && len(QDI.UserNotice.NoticeRef.NoticeNumbers) == 0) && (len(QSI.Cps) == 0 ==> QSI.UserNotice != nil && oidv(QDI.QualifierId) == oid("1.3.6.1.5.5.7.2.2") && QDI.Cps == "" && QDI.UserNotice.ExplicitText == QSI.UserNotice.Text && QDI.UserNotice.NoticeRef.Organization == QSI.UserNotice.Organization && QDI.UserNotice.NoticeRef.NoticeNumbers == QSI.UserNotice.Numbers)
+//@   ensures @C07 bound(POL) ==> c.Raw == "" && c.Content != nil && err == nil ==> (forall k in [0, len(c.Content)) :: forall j in [0, len(CT[k].Qualifiers)) :: QOK)
 //@   loop 1
 //@     invariant 0 <= idx && idx <= len(c.Content) && len(policyIds) == len(c.Content)
-//@     invariant @C07 forall k in [0, idx) :: isOidStr(CT[k].Oid) && oidv(policyIds[k].ObjectIdentifier) == parseOid(CT[k].Oid) && len(policyIds[k].Qualifiers) == len(CT[k].Qualifiers)
+//@     invariant @C07 forall k in [0, idx) :: isOidStr(CT[k].Oid) && oidv(policyIds[k].ObjectIdentifier) == parseOid(CT[k].Oid) && len(policyIds[k].Qualifiers) == len(CT[k].Qualifiers) && allocated(policyIds[k].Qualifiers)
+//@     invariant @C07 forall k in [0, idx) :: forall j in [0, len(CT[k].Qualifiers)) :: QOK
 //@   loop 2
 //@     invariant 0 <= idx && idx <= len(policyObj.Qualifiers) && len(policyIds[i].Qualifiers) == len(policyObj.Qualifiers) && fresh(policyIds[i].Qualifiers)
+//@     invariant @C07 forall k in [0, i) :: forall j in [0, len(CT[k].Qualifiers)) :: QOK
+//@     invariant @C07 forall j in [0, idx) :: QOKI
+//@     invariant @C07 forall j in [idx, len(policyObj.Qualifiers)) :: QDI.Cps == "" && QDI.UserNotice.ExplicitText == "" && QDI.UserNotice.NoticeRef.Organization == "" && len(QDI.UserNotice.NoticeRef.NoticeNumbers) == 0
 
 //@ func (AuthInfoAccess).Oid returns (r)
 //@   props C06
